@@ -465,7 +465,13 @@ impl AssemblyCode {
                                     }
                                 }
                                 AsmMnemonic::BEQ => {
-                                    if *r != i1.dasm_operand && !i2.protected {
+                                    // Different texts are different values only between numbers
+                                    // (`#<sym` may well be 16)
+                                    if *r != i1.dasm_operand
+                                        && r[1..].parse::<i32>().is_ok()
+                                        && i1.dasm_operand[1..].parse::<i32>().is_ok()
+                                        && !i2.protected
+                                    {
                                         remove_both = true;
                                     }
                                 }
@@ -486,7 +492,13 @@ impl AssemblyCode {
                                     }
                                 }
                                 AsmMnemonic::BEQ => {
-                                    if *r != i1.dasm_operand && !i2.protected {
+                                    // Different texts are different values only between numbers
+                                    // (`#<sym` may well be 16)
+                                    if *r != i1.dasm_operand
+                                        && r[1..].parse::<i32>().is_ok()
+                                        && i1.dasm_operand[1..].parse::<i32>().is_ok()
+                                        && !i2.protected
+                                    {
                                         remove_both = true;
                                     }
                                 }
@@ -507,7 +519,13 @@ impl AssemblyCode {
                                     }
                                 }
                                 AsmMnemonic::BEQ => {
-                                    if *r != i1.dasm_operand && !i2.protected {
+                                    // Different texts are different values only between numbers
+                                    // (`#<sym` may well be 16)
+                                    if *r != i1.dasm_operand
+                                        && r[1..].parse::<i32>().is_ok()
+                                        && i1.dasm_operand[1..].parse::<i32>().is_ok()
+                                        && !i2.protected
+                                    {
                                         remove_both = true;
                                     }
                                 }
